@@ -82,7 +82,7 @@ ENV_TARGETS = [("$X", f"{X}.env['X']"), ("${'a'}", f"{X}.env[str('a')]"), ("${ b
 H = HOLE
 TARGET_CONTEXTS = [
     f"{H} = 1\n", f"a = {H} = 1\n", f"{H}, b = c\n", f"b, {H} = c\n", f"*{H}, b = c\n", f"({H}, b) = c\n", f"[{H}] = c\n",
-    f"({H}) = c\n", f"for {H} in x:\n    pass\n", f"for a, {H} in x:\n    pass\n", f"with a as {H}:\n    pass\n",
+    f"({H}) = c\n", f"{H} += 1\n", f"({H}) -= a\n", f"{H}: int = 1\n", f"{H}: int\n", f"for ({H}) in x:\n    pass\n", f"for [a, ({H})] in x:\n    pass\n", f"for {H} in x:\n    pass\n", f"for a, {H} in x:\n    pass\n", f"with a as {H}:\n    pass\n",
     f"with a as ({H}, b):\n    pass\n", f"[0 for {H} in x]\n", f"{{0: 1 for a, {H} in x}}\n",
     f"async def f():\n    async for {H} in x:\n        pass\n", f"async def f():\n    async with a as {H}:\n        pass\n",
     f"(0 for {H} in x)\n",
